@@ -1,4 +1,5 @@
-"""C51 -- Pickling round-trips (getstate/setstate key agreement, reduce/constructor arity, serializer tags)."""
+"""C51 -- Pickling round-trips (getstate/setstate key agreement, restore-before-read ordering in __setstate__,
+reduce/constructor arity, serializer tags and payload keys)."""
 
 from __future__ import annotations
 
@@ -6,7 +7,8 @@ import ast
 import re
 
 from ..astutil import call_name, calls_in, const_str, dotted, guard_atoms, lexical_guards, unparse, walk_local
-from ..report import Registry, sub
+from ..cfg import no_exc
+from ..report import Registry, chain, sub
 
 R = Registry(
     "C51",
@@ -18,7 +20,12 @@ R = Registry(
         "the class (and of every subclass inheriting that __reduce__) or by the named reconstructor function; "
         "InstanceState re-creates its weak reference with the _cleanup callback and calls the manager callable "
         "that __getstate__ stores last; every ext.serializer persistent-id tag written is matched by the reader "
-        "regex, has a reader branch and the same number of ':' fields."
+        "regex, has a reader branch and the same number of ':' fields; inside every __setstate__ no attribute is "
+        "read (directly, via self/super methods, via a resolvable callee handed self) before the statement that "
+        "restores it, and InstanceState restores nothing after the manager callable ran; every ext.serializer field "
+        "used as a lookup key by the reader is written from the attribute that keys that collection "
+        "(MetaData.tables/Table.key, Table.c/Column.key, Mapper.attrs/MapperProperty.key) and encoded fields are "
+        "decoded by the inverse pair."
     ),
     not_decided="equality of the unpickled objects, pickle protocol specifics, user-defined classes.",
 )
@@ -189,7 +196,7 @@ def _ctor_accepts(fn, n, implicit=1):
     return nreq <= n <= npos, f"{fn.name}({nreq}..{npos} positional)"
 
 
-@R.rule("C51-R2", floor=9, template="T-FLOW",
+@R.rule("C51-R2", floor=10, template="T-FLOW",
         desc="InstanceState.__setstate__ re-creates the weakref with _cleanup and calls the manager callable that "
              "__getstate__ stores last; ext.serializer: every written tag is matched by the reader regex, has a "
              "reader branch and the same number of fields")
@@ -225,6 +232,22 @@ def r2(ctx):
               "the serialized-manager callable is not (a) stored under 'manager' as the last write of __getstate__ (pickle listeners "
               "must see the complete dict) and (b) called by __setstate__ with (self, inst, state_dict)",
               "written last; called on unpickle", g.loc)
+    # the manager callable hands the state to the class manager and to `unpickle` event listeners: nothing may be
+    # restored after it
+    mgr_calls = [c for c in calls_in(s.node) if isinstance(c.func, ast.Subscript) and isinstance(c.func.value, ast.Name)
+                 and c.func.value.id == sp and const_str(c.func.slice) == "manager"]
+    if mgr_calls:
+        recv = s.node.args.args[0].arg
+        cfg_s, effs = _function_effects(ctx, ctx.index.cls(ST), s, recv, 0, ())
+        mgr_nodes = [i for c in mgr_calls for i in cfg_s.nodes_containing(c)]
+        after = cfg_s.reachable(mgr_nodes, edge_ok=no_exc, include_starts=False)
+        late = sorted(i for i in after if i in effs and (effs[i].stores or effs[i].open))
+        ctx.check(not late, f"{ST}:manager-after-restores",
+                  "attributes are still restored after the manager callable ran (`"
+                  + (cfg_s.nodes[late[0]].describe() if late else "") + "`): the class manager and `unpickle` listeners "
+                  "receive a partially restored state", "no restore follows the manager callable", s.loc)
+    else:
+        ctx.ok(f"{ST}:manager-after-restores", "no manager call (reported under :manager)", nontrivial=False)
     # ---- ext.serializer
     SER = "ext/serializer.py"
     w = ctx.func(f"{SER}::Serializer.persistent_id")
@@ -342,6 +365,484 @@ def r3(ctx):
                       f"{n} arg(s) accepted by " + (", ".join(l for l, _ in targets) or "builtin constructor"), f.loc)
 
 
+
+# ------------------------------------------------------------------------------------ C51-R4
+# def-before-use ordering inside __setstate__: an unpickled object starts with an empty __dict__, so a read of
+# self.A that is reached before the statement of the same __setstate__ that stores self.A sees the class default
+# (or raises), never the pickled value.
+
+_SKIP_ATTRS = {"__dict__", "__class__", "__init__", "__setstate__"}
+_MAX_DEPTH = 3
+
+
+def _is_name(e, name):
+    return isinstance(e, ast.Name) and e.id == name
+
+
+def _is_recv_dict(e, recv):
+    """`recv.__dict__` or `vars(recv)`"""
+    if isinstance(e, ast.Attribute) and e.attr == "__dict__" and _is_name(e.value, recv):
+        return True
+    return isinstance(e, ast.Call) and call_name(e) == "vars" and len(e.args) == 1 and _is_name(e.args[0], recv)
+
+
+def _bulk_keys(call):
+    """attribute names installed by `<dict>.update(X, **kw)`: (set of names, open?)"""
+    keys, opened = set(), False
+    for kw in call.keywords:
+        if kw.arg is None:
+            opened = True
+        else:
+            keys.add(kw.arg)
+    for a in call.args:
+        if isinstance(a, ast.Dict):
+            for k in a.keys:
+                if k is not None and const_str(k) is not None:
+                    keys.add(const_str(k))
+                else:
+                    opened = True
+        elif isinstance(a, (ast.ListComp, ast.GeneratorExp, ast.SetComp, ast.DictComp)) and len(a.generators) == 1:
+            gen = a.generators[0]
+            elt_key = a.key if isinstance(a, ast.DictComp) else (a.elt.elts[0] if isinstance(a.elt, ast.Tuple) and a.elt.elts else None)
+            lits = [const_str(x) for x in gen.iter.elts] if isinstance(gen.iter, (ast.Tuple, ast.List, ast.Set)) else [None]
+            if isinstance(gen.target, ast.Name) and _is_name(elt_key, gen.target.id) and lits and all(x is not None for x in lits):
+                keys.update(lits)
+            else:
+                opened = True
+        elif isinstance(a, (ast.List, ast.Tuple)) and all(isinstance(x, ast.Tuple) and x.elts and const_str(x.elts[0]) is not None for x in a.elts):
+            keys.update(const_str(x.elts[0]) for x in a.elts)
+        else:
+            opened = True
+    return keys, opened
+
+
+def _node_parts(n):
+    st = n.stmt
+    if st is None or n.kind in ("with_exit", "handler", "join", "entry", "exit", "raise_exit"):
+        return []
+    if n.kind == "test":
+        return [st.test]
+    if not isinstance(st, ast.stmt):
+        return []
+    from ..astutil import own_exprs
+    return own_exprs(st)
+
+
+class _Effects:
+    """what one CFG node does to the attributes of the receiver object"""
+    __slots__ = ("reads", "stores", "open")
+
+    def __init__(self):
+        self.reads = {}     # attr -> human readable origin
+        self.stores = set()
+        self.open = False   # installs an unknown set of attributes (e.g. __dict__.update(state))
+
+
+def _callee_for(ctx, cls, defcls, module, call, recv):
+    """(FuncInfo, receiver parameter name) when `call` hands the receiver to code we can read: recv.m(...),
+    super().m(...), or f(..., recv, ...) / K(..., recv, ...) with a resolvable callee."""
+    fn = call.func
+    ix = ctx.index
+    if isinstance(fn, ast.Attribute) and cls is not None:
+        target = None
+        if _is_name(fn.value, recv):
+            target = ix.resolve_method(cls, fn.attr)
+        elif isinstance(fn.value, ast.Call) and call_name(fn.value) == "super" and defcls is not None:
+            mro = ix.mro(cls)
+            after = mro[mro.index(defcls) + 1:] if defcls in mro else []
+            for k in after:
+                if fn.attr in k.methods and not k.methods[fn.attr].type_only:
+                    target = k.methods[fn.attr]
+                    break
+        if target is not None and not ({"property", "staticmethod", "classmethod"} & set(target.decorators)) \
+                and target.node.args.args:
+            return target, target.node.args.args[0].arg
+    # receiver passed as an argument
+    pos = [i for i, a in enumerate(call.args) if _is_name(a, recv)]
+    kws = [k.arg for k in call.keywords if k.arg and _is_name(k.value, recv)]
+    if not pos and not kws:
+        return None
+    nm = call_name(call)
+    if not nm or not re.fullmatch(r"[\w.]+", nm) or nm.split(".")[0] in (recv, "super"):
+        return None
+    from ..index import ClassInfo, FuncInfo
+    r = ix.resolve(module, nm)
+    shift = 0
+    if isinstance(r, ClassInfo):
+        r = ix.resolve_method(r, "__init__")
+        shift = 1
+    elif isinstance(r, FuncInfo) and r.cls is not None and "staticmethod" not in r.decorators:
+        shift = 1
+    if not isinstance(r, FuncInfo):
+        return None
+    params = [a.arg for a in r.node.args.posonlyargs + r.node.args.args]
+    if kws and kws[0] in params:
+        return r, kws[0]
+    if pos and pos[0] + shift < len(params):
+        return r, params[pos[0] + shift]
+    return None
+
+
+def _node_effects(ctx, cls, defcls, module, parts, recv, depth, stack):
+    eff = _Effects()
+    for part in parts:
+        for n in [part] + list(walk_local(part)):
+            if isinstance(n, ast.Attribute) and _is_name(n.value, recv) and n.attr not in _SKIP_ATTRS:
+                if isinstance(n.ctx, ast.Store):
+                    eff.stores.add(n.attr)
+                elif isinstance(n.ctx, ast.Load):
+                    eff.reads.setdefault(n.attr, f"{recv}.{n.attr}")
+            elif isinstance(n, ast.Attribute) and n.attr == "__dict__" and _is_name(n.value, recv) and isinstance(n.ctx, ast.Store):
+                eff.open = True
+            elif isinstance(n, ast.Subscript) and isinstance(n.ctx, ast.Store) and _is_recv_dict(n.value, recv):
+                k = const_str(n.slice)
+                if k is None:
+                    eff.open = True
+                else:
+                    eff.stores.add(k)
+            elif isinstance(n, ast.Call):
+                nm = call_name(n) or ""
+                if nm in ("setattr", "object.__setattr__") and len(n.args) == 3 and _is_name(n.args[0], recv):
+                    k = const_str(n.args[1])
+                    if k is None:
+                        eff.open = True
+                    else:
+                        eff.stores.add(k)
+                    continue
+                if isinstance(n.func, ast.Attribute) and n.func.attr == "update" and _is_recv_dict(n.func.value, recv):
+                    keys, opened = _bulk_keys(n)
+                    eff.stores |= keys
+                    eff.open |= opened
+                    continue
+                tgt = _callee_for(ctx, cls, defcls, module, n, recv)
+                if tgt is not None:
+                    f, p = tgt
+                    exposed, stores, opened = _summary(ctx, cls, f, p, depth + 1, stack)
+                    label = f"{unparse(n.func)}()"
+                    for a, how in exposed.items():
+                        eff.reads.setdefault(a, f"{how} via {label}")
+                    eff.stores |= stores
+                    eff.open |= opened
+    return eff
+
+
+def _function_effects(ctx, cls, f, recv, depth, stack):
+    g = ctx.cfg(f)
+    ctx.functions_analysed.add(f.key)
+    effs = {}
+    for n in g.nodes:
+        parts = _node_parts(n)
+        if parts:
+            e = _node_effects(ctx, cls, f.cls, f.module, parts, recv, depth, stack + (f.key,))
+            if e.reads or e.stores or e.open:
+                effs[n.id] = e
+    return g, effs
+
+
+_SUMMARY_CACHE_ATTR = "_c51_summaries"
+
+
+def _summary(ctx, cls, f, recv, depth, stack):
+    """(exposed reads {attr: origin}, may-stores, open?) of function f on its parameter `recv`: a read is exposed
+    when some path from the entry reaches it without passing a store of that attribute."""
+    if depth > _MAX_DEPTH or f.key in stack:
+        return {}, set(), False
+    cache = ctx.__dict__.setdefault(_SUMMARY_CACHE_ATTR, {})
+    ck = (f.key, recv, cls.key if cls is not None else None)
+    if ck in cache:
+        return cache[ck]
+    g, effs = _function_effects(ctx, cls, f, recv, depth, stack)
+    stores, opened, exposed = set(), False, {}
+    for e in effs.values():
+        stores |= e.stores
+        opened |= e.open
+    for nid, e in effs.items():
+        for a, how in e.reads.items():
+            if a in exposed:
+                continue
+            block = {m for m, x in effs.items() if (a in x.stores or x.open) and m != nid}
+            if g.witness([g.entry], [nid], avoid=block) is not None:
+                exposed[a] = how
+    cache[ck] = (exposed, stores, opened)
+    return cache[ck]
+
+
+def _instance_attrs(ctx, cls):
+    """names assigned as `self.X = ...` / listed in __slots__ somewhere in the MRO (instance data, not methods)"""
+    out = set()
+    for k in ctx.index.mro(cls):
+        for m in k.methods.values():
+            if not m.node.args.args:
+                continue
+            me = m.node.args.args[0].arg
+            for n in ast.walk(m.node):
+                if isinstance(n, ast.Attribute) and _is_name(n.value, me) and isinstance(n.ctx, ast.Store):
+                    out.add(n.attr)
+    return out
+
+
+@R.rule("C51-R4", floor=25, template="T-PATH",
+        desc="def-before-use inside every __setstate__: no read of self.A (directly, through a self/super method or "
+             "through a resolvable callee that is handed self) is reached before the statement of the same "
+             "__setstate__ that restores self.A")
+def r4(ctx):
+    for cls in sorted(ctx.index.all_classes(), key=lambda c: c.key):
+        s = cls.methods.get("__setstate__")
+        if s is None or s.type_only or not s.node.args.args:
+            continue
+        recv = s.node.args.args[0].arg
+        g, effs = _function_effects(ctx, cls, s, recv, 0, ())
+        any_open = any(e.open for e in effs.values())
+        inst = _instance_attrs(ctx, cls) if any_open else set()
+        read_attrs = {}
+        for nid, e in effs.items():
+            for a in e.reads:
+                read_attrs.setdefault(a, []).append(nid)
+        n_checked = 0
+        for a in sorted(read_attrs):
+            store_nodes = {nid for nid, e in effs.items() if a in e.stores or (e.open and a in inst)}
+            if not store_nodes:
+                continue  # never restored here: a method, a memoized attribute, a class constant
+            n_checked += 1
+            key = f"{s.key}:{a}"
+            bad = None
+            for r in sorted(read_attrs[a]):
+                w = g.witness([g.entry], [r], avoid=store_nodes - {r})
+                if w is None:
+                    continue
+                later = g.reachable([r], edge_ok=no_exc, include_starts=False) & (store_nodes - {r})
+                if later:
+                    first = min(later, key=lambda i: g.nodes[i].lineno or 0)
+                    bad = (r, first, w)
+                    break
+            if bad:
+                r, first, w = bad
+                ctx.violation(
+                    key,
+                    f"{effs[r].reads[a]} is read at `{g.nodes[r].describe()}` before the restore "
+                    f"`{g.nodes[first].describe()}` has run: on a freshly unpickled object it sees the class default, "
+                    f"not the pickled value",
+                    s.loc, g.describe_path(w)[-4:] + ["... later: " + g.nodes[first].describe()])
+            else:
+                ctx.ok(key, f"every read of {recv}.{a} follows its restore")
+        if not n_checked:
+            ctx.ok(f"{s.key}:no-read-of-restored", "reads no attribute that it restores", nontrivial=False)
+
+
+
+# ------------------------------------------------------------------------------------ C51-R5
+# ext.serializer payloads: what persistent_id writes into a field must be the key under which persistent_load
+# looks the object up again, and an encoded field must be decoded by the inverse pair.
+
+def _local_value(fn, e):
+    """follow a local name bound exactly once in fn to its value"""
+    seen = 0
+    while isinstance(e, ast.Name) and seen < 4:
+        defs = [n.value for n in walk_local(fn) if isinstance(n, ast.Assign) and len(n.targets) == 1 and _is_name(n.targets[0], e.id)]
+        if len(defs) != 1:
+            break
+        e, seen = defs[0], seen + 1
+    return e
+
+
+def _tables_key_attrs(ctx):
+    """attributes of Table equal to the key under which MetaData._add_table files the table in MetaData.tables,
+    plus the (function, argument attribute names) form of that key"""
+    f = ctx.func("sql/schema.py::MetaData._add_table")
+    params = [a.arg for a in f.node.args.args][1:]
+    ins = []
+    for n in walk_local(f.node):
+        if isinstance(n, ast.Assign) and isinstance(n.targets[0], ast.Subscript) and unparse(n.targets[0].value) == "self.tables":
+            ins.append((n.targets[0].slice, n.value))
+        elif isinstance(n, ast.Call):
+            nm = call_name(n) or ""
+            if nm.startswith("self.tables.") and len(n.args) == 2:
+                ins.append((n.args[0], n.args[1]))
+            elif len(n.args) == 3 and unparse(n.args[0]) == "self.tables":
+                ins.append((n.args[1], n.args[2]))
+    ctx.require(len(ins) == 1, f"{f.key}: insertion into self.tables not recognised")
+    k, v = ins[0]
+    ctx.require(isinstance(v, ast.Name) and v.id in params, f"{f.key}: inserted value is not the table parameter")
+    k = _local_value(f.node, k)
+    if isinstance(k, ast.Attribute) and _is_name(k.value, v.id):
+        return {k.attr}, None
+    ctx.require(isinstance(k, ast.Call) and call_name(k) and not k.keywords
+                and all(isinstance(a, ast.Name) and a.id in params for a in k.args),
+                f"{f.key}: key expression `{unparse(k)}` not understood")
+    fname, argnames = call_name(k), [a.id for a in k.args]
+    tcls = ctx.index.cls("sql/schema.py::Table")
+    props = set()
+    for name, m in tcls.methods.items():
+        if not any("property" in d for d in m.decorators) or not m.node.args.args:
+            continue
+        me = m.node.args.args[0].arg
+        rets = [r for r in walk_local(m.node) if isinstance(r, ast.Return) and r.value is not None]
+        if len(rets) == 1 and isinstance(rets[0].value, ast.Call) and call_name(rets[0].value) == fname \
+                and [unparse(a) for a in rets[0].value.args] == [f"{me}.{a}" for a in argnames]:
+            props.add(name)
+    ctx.require(props, f"no Table property returns {fname}({', '.join('self.' + a for a in argnames)})")
+    return props, (fname, argnames)
+
+
+def _dedupe_key_attrs(ctx):
+    """attribute of the column under which DedupeColumnCollection.add (Table.c) files it"""
+    f = ctx.func("sql/base.py::DedupeColumnCollection.add")
+    col = f.node.args.args[1].arg
+    keys = [c.args[0] for c in calls_in(f.node) if call_name(c) == "self._append_new_column" and len(c.args) >= 2 and _is_name(c.args[1], col)]
+    ctx.require(keys, f"{f.key}: self._append_new_column(key, {col}) not found")
+    attrs = set()
+    for k in keys:
+        vals = [k]
+        if isinstance(k, ast.Name):
+            vals = [n.value for n in walk_local(f.node) if isinstance(n, ast.Assign) and any(_is_name(t, k.id) for t in n.targets)]
+        ctx.require(vals and all(isinstance(x, ast.Attribute) and _is_name(x.value, col) for x in vals),
+                    f"{f.key}: key `{unparse(k)}` is not an attribute of the column")
+        attrs |= {x.attr for x in vals}
+    return attrs
+
+
+def _mapper_attrs_key_attrs(ctx):
+    """attribute of the MapperProperty equal to its key in Mapper._props (the source of Mapper.attrs)"""
+    a = ctx.func("orm/mapper.py::Mapper.attrs")
+    ctx.require("self._props" in unparse(a.node), f"{a.key}: no longer built from self._props")
+    f = ctx.func("orm/mapper.py::Mapper._configure_property")
+    ins = [(n.targets[0].slice, n.value) for n in walk_local(f.node)
+           if isinstance(n, ast.Assign) and isinstance(n.targets[0], ast.Subscript) and unparse(n.targets[0].value) == "self._props"]
+    ctx.require(ins and all(isinstance(k, ast.Name) and isinstance(v, ast.Name) for k, v in ins), f"{f.key}: self._props[key] = prop not recognised")
+    attrs = set()
+    for k, v in ins:
+        for n in walk_local(f.node):
+            if isinstance(n, ast.Assign) and _is_name(n.value, k.id):
+                for t in n.targets:
+                    if isinstance(t, ast.Attribute) and _is_name(t.value, v.id):
+                        attrs.add(t.attr)
+    ctx.require(attrs, f"{f.key}: no `prop.<attr> = key` store found")
+    return attrs
+
+
+def _split_fields(e):
+    """a persistent-id expression as [tag, field expr, ...] (split at the ':' of its literal parts)"""
+    parts = []
+
+    def flat(x):
+        if isinstance(x, ast.BinOp) and isinstance(x.op, ast.Add):
+            flat(x.left)
+            flat(x.right)
+        elif isinstance(x, ast.JoinedStr):
+            for v in x.values:
+                parts.append(v.value if isinstance(v, ast.FormattedValue) else v)
+        else:
+            parts.append(x)
+    flat(e)
+    fields, cur = [], []
+    for p in parts:
+        if isinstance(p, ast.Constant) and isinstance(p.value, str):
+            segs = p.value.split(":")
+            for i, sg in enumerate(segs):
+                if i > 0:
+                    fields.append(cur)
+                    cur = []
+                if sg:
+                    cur.append(sg)
+        else:
+            cur.append(p)
+    fields.append(cur)
+    return fields
+
+
+def _is_decode(e, var):
+    """pickle.loads(b64decode(var))"""
+    return isinstance(e, ast.Call) and (call_name(e) or "").endswith("loads") and len(e.args) == 1 \
+        and isinstance(e.args[0], ast.Call) and (call_name(e.args[0]) or "").endswith("b64decode") \
+        and len(e.args[0].args) == 1 and _is_name(e.args[0].args[0], var)
+
+
+def _encoded_payload(e):
+    """X of b64encode(pickle.dumps(X)), else None"""
+    if isinstance(e, ast.Call) and (call_name(e) or "").endswith("b64encode") and len(e.args) == 1 \
+            and isinstance(e.args[0], ast.Call) and (call_name(e.args[0]) or "").endswith("dumps") and e.args[0].args:
+        return e.args[0].args[0]
+    return None
+
+
+@R.rule("C51-R5", floor=7, template="T-TABLE",
+        desc="ext.serializer payloads: a field that persistent_load uses to subscript MetaData.tables / Table.c / "
+             "Mapper.attrs is written by persistent_id from the attribute under which that collection files its "
+             "members (derived from MetaData._add_table + Table, DedupeColumnCollection.add, "
+             "Mapper._configure_property); a field is pickled+b64-encoded iff the reader decodes+unpickles it")
+def r5(ctx):
+    SER = "ext/serializer.py"
+    w = ctx.func(f"{SER}::Serializer.persistent_id")
+    rd = ctx.func(f"{SER}::Deserializer.persistent_load")
+    tprops, tform = _tables_key_attrs(ctx)
+    keyed_by = {"tables": ("MetaData.tables", tprops), "c": ("Table.c", _dedupe_key_attrs(ctx)),
+                "attrs": ("Mapper.attrs", _mapper_attrs_key_attrs(ctx))}
+    # writer: tag -> [field expression parts]
+    written = {}
+    for n in walk_local(w.node):
+        if isinstance(n, ast.Assign) and isinstance(n.targets[0], ast.Name) and not (isinstance(n.value, ast.Constant) and n.value.value is None):
+            fl = _split_fields(n.value)
+            if len(fl) >= 2 and len(fl[0]) == 1 and isinstance(fl[0][0], str):
+                written[fl[0][0]] = fl[1:]
+    ctx.require(len(written) >= 3, f"{w.key}: persistent-id expressions not recognised")
+    # reader: the payload variable and the branches
+    payload = None
+    for n in walk_local(rd.node):
+        if isinstance(n, ast.Assign) and isinstance(n.targets[0], ast.Tuple) and len(n.targets[0].elts) == 2 \
+                and isinstance(n.value, ast.Call) and (call_name(n.value) or "").endswith(".group"):
+            payload = n.targets[0].elts[1].id
+    ctx.require(payload is not None, f"{rd.key}: `type_, args = m.group(1, 2)` not recognised")
+    pm = rd.module.parents()
+    for n in ast.walk(rd.node):
+        if not (isinstance(n, ast.If) and isinstance(n.test, ast.Compare) and len(n.test.ops) == 1 and isinstance(n.test.ops[0], ast.Eq)
+                and const_str(n.test.comparators[0]) is not None):
+            continue
+        tag = const_str(n.test.comparators[0])
+        if tag not in written:
+            continue
+        fvars = {payload: 0}
+        for st in n.body:
+            for x in ast.walk(st):
+                if isinstance(x, ast.Assign) and isinstance(x.targets[0], ast.Tuple) and isinstance(x.value, ast.Call) \
+                        and (call_name(x.value) or "") == f"{payload}.split":
+                    fvars = {e.id: i for i, e in enumerate(x.targets[0].elts) if isinstance(e, ast.Name)}
+        wfields = written[tag]
+        for var, i in sorted(fvars.items(), key=lambda kv: kv[1]):
+            wf = wfields[i] if i < len(wfields) else None   # field count mismatches are C51-R2's
+            if wf is None or len(wf) != 1 or isinstance(wf[0], str):
+                wexpr = None
+            else:
+                wexpr = _local_value(w.node, wf[0])
+            enc = _encoded_payload(wexpr) if wexpr is not None else None
+            decoded = lookups = False
+            for st in n.body:
+                for x in ast.walk(st):
+                    if _is_decode(x, var):
+                        decoded = True
+                    if isinstance(x, ast.Subscript) and _is_name(x.slice, var) and isinstance(x.value, ast.Attribute):
+                        lookups = True
+                        coll = x.value.attr
+                        key = f"{SER}::tag:{tag}:field{i}->{coll}"
+                        if coll not in keyed_by:
+                            ctx.note(f"{key}: lookup in an unmodelled collection, not decided")
+                            continue
+                        cname, attrs = keyed_by[coll]
+                        good = wexpr is not None and isinstance(wexpr, ast.Attribute) and wexpr.attr in attrs
+                        if not good and coll == "tables" and tform is not None and isinstance(wexpr, ast.Call) \
+                                and call_name(wexpr) == tform[0] and len(wexpr.args) == len(tform[1]) \
+                                and all(isinstance(a, ast.Attribute) and a.attr == nm for a, nm in zip(wexpr.args, tform[1])):
+                            good = True
+                        ctx.check(good, key,
+                                  f"persistent_id writes `{unparse(wexpr) if wexpr is not None else wf}` but persistent_load looks the "
+                                  f"field up with `{unparse(x)}`, and {cname} files its members under .{'/.'.join(sorted(attrs))}: "
+                                  f"the id resolves to another object or raises KeyError whenever the two differ",
+                                  f"written from .{wexpr.attr if isinstance(wexpr, ast.Attribute) else '?'} = key of {cname}", w.loc)
+            if enc is not None or decoded:
+                ctx.check((enc is not None) == decoded, f"{SER}::tag:{tag}:field{i}:codec",
+                          f"writer {'pickles+b64-encodes' if enc is not None else 'writes the plain text of'} the field, reader "
+                          f"{'decodes+unpickles' if decoded else 'uses the raw text'}", "b64encode(pickle.dumps(..)) <-> pickle.loads(b64decode(..))", w.loc)
+
+
 # ------------------------------------------------------------------------------------ self-test
 R.mutant("metadata-getstate-drops-key", "sql/schema.py",
          sub("            \"fk_memos\": self._fk_memos,\n", ""), "C51-R1")
@@ -374,3 +875,68 @@ R.mutant("benign-rename-state-param", "sql/selectable.py",
          None)
 R.mutant("benign-reader-optional-key", "orm/collections.py",
          sub("        self.invalidated = d[\"invalidated\"]\n", "        self.invalidated = d.get(\"invalidated\", False)\n"), None)
+
+# --- C51-R4 (seed C51_1: identity_token computed from self.key before key is restored) and neighbours
+_TOKEN_BLOCK = "        if self.key:\n            self.identity_token = self.key[2]\n\n"
+_EXPIRED_LINE = "        self.expired = state_dict.get(\"expired\", False)\n"
+R.mutant("seed-identity-token-before-key-restore", "orm/state.py",
+         chain(sub(_TOKEN_BLOCK, "\n"),
+               sub(_EXPIRED_LINE, _EXPIRED_LINE + "        if self.key:\n            self.identity_token = self.key[2]\n")),
+         "C51-R4")
+R.mutant("identity-token-helper-before-key-restore", "orm/state.py",
+         chain(sub(_TOKEN_BLOCK, "\n"),
+               sub(_EXPIRED_LINE, _EXPIRED_LINE + "        self._restore_identity_token()\n"),
+               sub("    def _reset(self, dict_: _InstanceDict, key: str) -> None:\n",
+                   "    def _restore_identity_token(self) -> None:\n        if self.key:\n            self.identity_token = self.key[2]\n\n"
+                   "    def _reset(self, dict_: _InstanceDict, key: str) -> None:\n")),
+         "C51-R4")
+R.mutant("collectionadapter-attr-before-key", "orm/collections.py",
+         chain(sub("        self.attr = getattr(d[\"owner_cls\"], self._key).impl\n", ""),
+               sub("    def __setstate__(self, d):\n        self._key = d[\"key\"]\n",
+                   "    def __setstate__(self, d):\n        self.attr = getattr(d[\"owner_cls\"], self._key).impl\n        self._key = d[\"key\"]\n")),
+         "C51-R4")
+R.mutant("columncollection-metrics-before-proxy-index", "sql/base.py",
+         chain(sub("        object.__setattr__(self, \"_index\", state[\"_index\"])\n        object.__setattr__(\n            self, \"_proxy_index\", collections.defaultdict(util.OrderedSet)\n        )\n",
+                   "        object.__setattr__(self, \"_index\", state[\"_index\"])\n"),
+               sub("        object.__setattr__(\n            self, \"_colset\", {col for k, col, _ in self._collection}\n        )\n",
+                   "        object.__setattr__(\n            self, \"_colset\", {col for k, col, _ in self._collection}\n        )\n"
+                   "        object.__setattr__(\n            self, \"_proxy_index\", collections.defaultdict(util.OrderedSet)\n        )\n")),
+         "C51-R4")
+R.mutant("instancestate-manager-before-load-path", "orm/state.py",
+         chain(sub("        state_dict[\"manager\"](self, inst, state_dict)\n", ""),
+               sub("        if \"load_path\" in state_dict:\n            self.load_path = PathRegistry.deserialize(state_dict[\"load_path\"])\n",
+                   "        state_dict[\"manager\"](self, inst, state_dict)\n        if \"load_path\" in state_dict:\n            self.load_path = PathRegistry.deserialize(state_dict[\"load_path\"])\n")),
+         "C51-R2")
+# --- C51-R5 (seed C51_2: table id written from Table.name, looked up in MetaData.tables) and siblings
+R.mutant("seed-table-id-from-name", "ext/serializer.py",
+         sub("                id_ = f\"table:{obj.key}\"\n", "                id_ = f\"table:{obj.name}\"\n"), "C51-R5")
+R.mutant("column-id-table-from-name", "ext/serializer.py",
+         sub("id_ = f\"column:{obj.table.key}:{obj.key}\"", "id_ = f\"column:{obj.table.name}:{obj.key}\""), "C51-R5")
+R.mutant("column-id-column-from-name", "ext/serializer.py",
+         sub("id_ = f\"column:{obj.table.key}:{obj.key}\"", "id_ = f\"column:{obj.table.key}:{obj.name}\""), "C51-R5")
+R.mutant("mapperprop-id-from-class-attribute-name", "ext/serializer.py",
+         sub("                + \":\"\n                + obj.key\n", "                + \":\"\n                + obj.class_attribute.name\n"), "C51-R5")
+R.mutant("mapper-reader-skips-b64decode", "ext/serializer.py",
+         sub("            elif type_ == \"mapper\":\n                cls = pickle.loads(b64decode(args))\n",
+             "            elif type_ == \"mapper\":\n                cls = pickle.loads(args)\n"), "C51-R5")
+# benign
+R.mutant("benign-identity-token-after-load-path", "orm/state.py",
+         chain(sub(_TOKEN_BLOCK, "\n"),
+               sub("        state_dict[\"manager\"](self, inst, state_dict)\n",
+                   "        if self.key:\n            self.identity_token = self.key[2]\n        state_dict[\"manager\"](self, inst, state_dict)\n")),
+         None)
+R.mutant("benign-identity-token-helper-after-restore", "orm/state.py",
+         chain(sub(_TOKEN_BLOCK, "        self._restore_identity_token()\n\n"),
+               sub("    def _reset(self, dict_: _InstanceDict, key: str) -> None:\n",
+                   "    def _restore_identity_token(self) -> None:\n        if self.key:\n            self.identity_token = self.key[2]\n\n"
+                   "    def _reset(self, dict_: _InstanceDict, key: str) -> None:\n")),
+         None)
+R.mutant("benign-setstate-reorder-independent", "orm/state.py",
+         sub("        self.modified = state_dict.get(\"modified\", False)\n        self.expired = state_dict.get(\"expired\", False)\n",
+             "        self.expired = state_dict.get(\"expired\", False)\n        self.modified = state_dict.get(\"modified\", False)\n"), None)
+R.mutant("benign-table-id-through-local", "ext/serializer.py",
+         sub("                id_ = f\"table:{obj.key}\"\n", "                table_key = obj.key\n                id_ = f\"table:{table_key}\"\n"), None)
+R.mutant("benign-table-id-concatenated", "ext/serializer.py",
+         sub("                id_ = f\"table:{obj.key}\"\n", "                id_ = \"table:\" + obj.key\n"), None)
+R.mutant("benign-table-id-get-table-key", "ext/serializer.py",
+         sub("                id_ = f\"table:{obj.key}\"\n", "                id_ = \"table:\" + _get_table_key(obj.name, obj.schema)\n"), None)
